@@ -21,6 +21,7 @@ static struct { size_t off, n; } inner[MAXINNER];
 static uint8_t *innerbuf; static size_t innercap, innerlen; static int ninner;
 static unsigned cbs[1 << 16]; static int ncb; static unsigned cbtotal;
 static int full_bytes = 1;
+static int log_data;   /* argv[2] == "data": New events of real decoders carry the compressed bytes */
 
 static void rec_inner(const uint8_t *b, size_t n)
 {
@@ -106,6 +107,7 @@ int main(int argc, char **argv)
 	FILE *jf = argc > 1 ? fopen(argv[1], "r") : stdin;
 	if (!jf) { perror("jobs"); return 2; }
 	(void) full_bytes;
+	log_data = argc > 2 && !strcmp(argv[2], "data");
 	while (fgets(line, sizeof line, jf)) {
 		char kind[16], a1[4096], a2[4096], ops[1 << 15];
 		unsigned long input, ref, declared, block, maxread;
@@ -131,7 +133,9 @@ int main(int argc, char **argv)
 			printf("{\"e\":\"Reset\",\"input\":%lu,\"ref\":%s}\n", input, ref ? "true" : "false");
 			LHADecoder *d = lha_decoder_new(&wrap, src, NULL, declared);
 			if (!d) { fprintf(stderr, "decoder_new failed\n"); return 2; }
-			printf("{\"e\":\"New\",\"declared\":%lu,\"block\":%zu,\"maxread\":%zu}\n", declared, wrap.block_size, wrap.max_read);
+			printf("{\"e\":\"New\",\"declared\":%lu,\"block\":%zu,\"maxread\":%zu,\"method\":\"%s\"", declared, wrap.block_size, wrap.max_read, a1);
+			if (log_data) { printf(",\"data\":"); pbytes(data, dlen); }
+			printf("}\n");
 			run_ops(d, ops, declared);
 			lha_decoder_free(d);
 		}
